@@ -11,24 +11,31 @@
 (*   count  the rule count the parser reported                             *)
 (*   fp     parsing the stored bytes again gave the same count, the same   *)
 (*          checksum and the same bytes (also when read as a restart does) *)
-(* The outcome must be one of RuleListCore!Admissible(t).                  *)
+(* The outcome must be one of RuleListCore!Admissible(t, policy) for one    *)
+(* and the same policy on all lines.                                       *)
 (***************************************************************************)
 EXTENDS RuleListCore, TLC, Json
 
 Trace == ndJsonDeserialize("trace.ndjson")
 
-VARIABLES l, bad
+VARIABLES l, bad,
+          pols    \* the parser policies (RuleListCore: is a "#"-line that is not a
+                  \* plain comment a rule?) under which EVERY line so far is admissible
 
-LineOk(i) ==
+LineOk(i, b) ==
     LET r == Trace[i]
         o == IF r.ok THEN Ok(r.rules) ELSE Fail
-    IN /\ o \in Admissible(r.t)
+    IN /\ o \in Admissible(r.t, Uniform(b))
        /\ r.ok => r.count = Count(r.rules) /\ r.fp
 
-Init == l = 1 /\ bad = {}
+Init == l = 1 /\ bad = {} /\ pols = BOOLEAN
+\* A line is rejected when no policy that explains all earlier lines explains
+\* it as well (one implementation has one policy).
 Next == /\ l <= Len(Trace)
-        /\ bad' = IF LineOk(l) THEN bad ELSE bad \cup {l}
+        /\ \E keep \in {{b \in pols : LineOk(l, b)}} :
+              IF keep = {} THEN bad' = bad \cup {l} /\ pols' = pols
+                           ELSE bad' = bad /\ pols' = keep
         /\ l' = l + 1
-        /\ (l' = Len(Trace) + 1 => PrintT(<<"@@V", ToJson([n |-> Len(Trace), bad |-> bad'])>>))
-Spec == Init /\ [][Next]_<<l, bad>>
+        /\ (l' = Len(Trace) + 1 => PrintT(<<"@@V", ToJson([n |-> Len(Trace), bad |-> bad', pols |-> pols'])>>))
+Spec == Init /\ [][Next]_<<l, bad, pols>>
 =============================================================================
